@@ -95,6 +95,10 @@ def time_case(recipe):
     # the model also prints per-segment tick counts, which the implementation does not expose: they are
     # checked through the script (same length, same values); observed answer = the script part only
     hits = []
+    perr = X.PROBE_ERRORS.get((tuple(tuple(sorted(s.items())) for s in segs), cpus, tps))
+    if perr:
+        hits.append(dict(desc=f'a container running this operator alone with unlimited memory raised {perr} after {len(sc)} ticks',
+                         signature='time-model', recipe=recipe, gen=recipe.get('gen')))
     d = script_monitor(segs, cpus, tps, sc)
     if d:
         hits.append(dict(desc=d, signature='time-model', recipe=recipe, gen=recipe.get('gen')))
